@@ -150,6 +150,18 @@ func (ex *Exec) vrtCall(fn *ssa.Function, args []Value, g *Term, where string) V
 		}
 		ex.frameUnchanged(g, msg)
 		return nil
+	case "HistoryStep":
+		return Bool(ex.history)
+	case "Observe":
+		if !isStrConst(T(0)) {
+			unsupported("Observe label must be constant")
+		}
+		v := args[1]
+		if iv, ok := v.(*IfaceVal); ok {
+			v = iv.V
+		}
+		ex.observes = append(ex.observes, observeRec{Label: T(0).s, G: g, V: v})
+		return nil
 	case "FrameExempt":
 		if ex.frameExempt == nil {
 			ex.frameExempt = map[*Object]bool{}
@@ -309,7 +321,13 @@ func (ex *Exec) frameUnchanged(g *Term, msg string) {
 				if e.G.IsFalse() {
 					continue
 				}
-				ov, ok := ex.mapLookup(ptrTo(oldObj, -1), e.Key.(*Term), mapElemType(o), True)
+				var ov Value
+				var ok *Term
+				if o.typ == nil {
+					ov, ok = syncMapLookup(ex, ptrTo(oldObj, -1), e.Key.(*Term), True)
+				} else {
+					ov, ok = ex.mapLookup(ptrTo(oldObj, -1), e.Key.(*Term), mapElemType(o), True)
+				}
 				d := And(e.G, Or(Not(ok), valuesDiffer(ov, e.Val)))
 				if !d.IsFalse() {
 					diffs = append(diffs, d)
